@@ -412,16 +412,20 @@ def convert_file_to_utf8(
             text_file = factory.get_text_file()
         except MissingEncoding:
             return factory
+        # the rest of the stream is decoded by a new decoder, which is only
+        # correct if the encoding keeps no state across the prefix boundary
+        decodable = not _is_stateful_encoding(result.get("encoding"))
         try:
             # read in chunks to limit memory usage
-            while text_file.read(CONVERT_FILE_TEST_CHUNK_LEN):
+            while decodable and text_file.read(CONVERT_FILE_TEST_CHUNK_LEN):
                 pass
         except UnicodeDecodeError:
-            # fall back to convert_to_utf8() on the original bytes
-            # (the prefix is already converted, its declaration rewritten)
-            file.seek(initial_offset)
-        else:
+            decodable = False
+        if decodable:
             return factory
+        # fall back to convert_to_utf8() on the original bytes
+        # (the prefix is already converted, its declaration rewritten)
+        file.seek(initial_offset)
 
     # this shouldn't increase memory usage if file is BytesIO,
     # since BytesIO does copy-on-write; https://bugs.python.org/issue22003
@@ -429,6 +433,20 @@ def convert_file_to_utf8(
 
     # note that data *is* the prefix
     return StreamFactory(data, io.BytesIO(b""), result.get("encoding"))
+
+
+def _is_stateful_encoding(encoding) -> bool:
+    """Tell whether an encoding switches character sets with escape sequences.
+
+    ISO-2022-*, HZ and UTF-7 text cannot be decoded from the middle of a stream
+    without the state the decoder was in at that point.
+    """
+
+    try:
+        name = codecs.lookup(encoding or "").name
+    except LookupError:
+        return False
+    return name.startswith("iso2022") or name in ("hz", "utf-7")
 
 
 def convert_file_prefix_to_utf8(
